@@ -1,9 +1,10 @@
 /-
-  Proofs/C05.lean — helper lemmas for Props/C05.lean.
+  Proofs/C05.lean — helper lemmas for Props/C05.lean: the invariant of the recursive walk of
+  `children(recursive=True)`, its fuel bound, and the link between the walk's reachability and
+  the specification's `Desc`.
 -/
 import PsutilModel.Model.C05
 import PsutilModel.Spec.C05
-import PsutilModel.Spec.C05Stat
 namespace Psutil.C05
 open Spec
 
@@ -18,5 +19,444 @@ structure Cfg.Good (c : Cfg) : Prop where
   childrenGuarded : c.childrenGuarded = true
   ppidGuarded : c.ppidGuarded = true
   lowestStop : c.lowestStop = true
+
+/-! ## Small facts about the building blocks -/
+
+theorem mem_kidsOf {pm : PpidMap} {p c : Nat} : c ∈ kidsOf pm p ↔ (c, p) ∈ pm := by
+  unfold kidsOf
+  constructor
+  · intro h
+    obtain ⟨e, he, rfl⟩ := List.mem_map.1 h
+    obtain ⟨hm, hp⟩ := List.mem_filter.1 he
+    have : e.2 = p := by simpa using hp
+    rw [← this]; exact hm
+  · intro h
+    exact List.mem_map.2 ⟨(c, p), List.mem_filter.2 ⟨h, by simp⟩, rfl⟩
+
+theorem accepted_le_iff {ct : Nat} {look : Look} {c : Nat} :
+    accepted .le ct look c = true ↔ ∃ s, look c = some s ∧ ct ≤ s := by
+  unfold accepted
+  cases look c <;> simp [Cmp.eval]
+
+theorem kidsOf_length_le (pm : PpidMap) (p : Nat) : (kidsOf pm p).length ≤ pm.length := by
+  unfold kidsOf
+  rw [List.length_map]
+  exact List.length_filter_le _ _
+
+theorem unique_parent {pm : PpidMap} (hu : UniquePids pm) {c p p' : Nat}
+    (h1 : (c, p) ∈ pm) (h2 : (c, p') ∈ pm) : p = p' := by
+  unfold UniquePids at hu
+  induction pm with
+  | nil => cases h1
+  | cons e es ih =>
+    rw [List.map_cons, List.nodup_cons] at hu
+    rcases List.mem_cons.1 h1 with rfl | h1' <;> rcases List.mem_cons.1 h2 with h2' | h2'
+    · exact (Prod.mk.inj h2').2.symm ▸ rfl
+    · exact absurd (List.mem_map.2 ⟨(c, p'), h2', rfl⟩) hu.1
+    · subst h2'
+      exact absurd (List.mem_map.2 ⟨(c, p), h1', rfl⟩) hu.1
+    · exact ih hu.2 h1' h2'
+
+theorem kidsOf_nodup {pm : PpidMap} (hu : UniquePids pm) (p : Nat) : (kidsOf pm p).Nodup := by
+  unfold kidsOf
+  exact List.Nodup.sublist (List.Sublist.map _ List.filter_sublist) hu
+
+theorem uniquePids_filter {pm : PpidMap} (hu : UniquePids pm) (f : Nat × Nat → Bool) :
+    UniquePids (pm.filter f) :=
+  List.Nodup.sublist (List.Sublist.map _ List.filter_sublist) hu
+
+theorem nodup_reverse' {l : List Nat} (h : l.Nodup) : l.reverse.Nodup := by
+  unfold List.Nodup at *
+  rw [List.pairwise_reverse]
+  exact h.imp (fun h => h.symm)
+
+theorem nodup_flatMap_of {l : List Nat} {f : Nat → List Nat} (hl : l.Nodup)
+    (hf : ∀ x ∈ l, (f x).Nodup)
+    (hd : ∀ x ∈ l, ∀ y ∈ l, x ≠ y → ∀ c, c ∈ f x → c ∉ f y) : (l.flatMap f).Nodup := by
+  induction l with
+  | nil => simp
+  | cons a as ih =>
+    rw [List.nodup_cons] at hl
+    rw [List.flatMap_cons, List.nodup_append]
+    refine ⟨hf a (by simp), ih hl.2 (fun x hx => hf x (by simp [hx]))
+      (fun x hx y hy => hd x (by simp [hx]) y (by simp [hy])), ?_⟩
+    intro c hc b hb hcb
+    subst hcb
+    obtain ⟨y, hy, hcy⟩ := List.mem_flatMap.1 hb
+    have hne : a ≠ y := fun e => hl.1 (e ▸ hy)
+    exact hd a (by simp) y (by simp [hy]) hne c hc hcy
+
+/-! ## The recursive walk -/
+
+section Walk
+variable (ok : Nat → Bool) (pm : PpidMap)
+
+/-- accepted children of `p` (what the loop body appends for `p`) -/
+def kids (p : Nat) : List Nat := (kidsOf pm p).filter ok
+
+/-- what the walk can reach from `root` -/
+inductive Reach (root : Nat) : Nat → Prop where
+  | root : Reach root root
+  | step {p c : Nat} : Reach root p → c ∈ kids ok pm p → Reach root c
+
+theorem walk_spec (root : Nat) : ∀ (fuel : Nat) (seen stack ret r : List Nat),
+    walk true ok pm fuel seen stack ret = some r →
+    (∀ s ∈ seen, ∀ k ∈ kids ok pm s, k ∈ seen ∨ k ∈ stack) →
+    (∀ x, x ∈ seen ∨ x ∈ stack → Reach ok pm root x) →
+    (root ∈ seen ∨ root ∈ stack) →
+    ret = seen.reverse.flatMap (kids ok pm) →
+    seen.Nodup →
+    ∃ seen' : List Nat, r = seen'.reverse.flatMap (kids ok pm) ∧ seen'.Nodup ∧ ∀ x, x ∈ seen' ↔ Reach ok pm root x := by
+  intro fuel
+  induction fuel with
+  | zero => intro seen stack ret r h; simp [walk] at h
+  | succ fuel ih =>
+    intro seen stack ret r h ha hb hc hd he
+    cases stack with
+    | nil =>
+      simp only [walk, Option.some.injEq] at h
+      subst h
+      refine ⟨seen, hd, he, fun x => ⟨fun hx => hb x (Or.inl hx), fun hx => ?_⟩⟩
+      induction hx with
+      | root => rcases hc with hc | hc
+                · exact hc
+                · cases hc
+      | step _ hk ihp =>
+        rcases ha _ ihp _ hk with h' | h'
+        · exact h'
+        · cases h'
+    | cons pid rest =>
+      by_cases hs : pid ∈ seen
+      · have hcont : seen.contains pid = true := by simpa using hs
+        simp only [walk, hcont, Bool.and_self, if_true] at h
+        refine ih seen rest ret r h ?_ ?_ ?_ hd he
+        · intro s hs' k hk
+          rcases ha s hs' k hk with h' | h'
+          · exact Or.inl h'
+          · rcases List.mem_cons.1 h' with rfl | h''
+            · exact Or.inl hs
+            · exact Or.inr h''
+        · intro x hx
+          rcases hx with hx | hx
+          · exact hb x (Or.inl hx)
+          · exact hb x (Or.inr (List.mem_cons_of_mem _ hx))
+        · rcases hc with hc | hc
+          · exact Or.inl hc
+          · rcases List.mem_cons.1 hc with rfl | h''
+            · exact Or.inl hs
+            · exact Or.inr h''
+      · have hcont : seen.contains pid = false := by simpa using hs
+        simp only [walk, hcont, Bool.and_false, Bool.false_eq_true, if_false] at h
+        have hrp : Reach ok pm root pid := hb pid (Or.inr (by simp))
+        refine ih (pid :: seen) _ _ r h ?_ ?_ ?_ ?_ ?_
+        · intro s hs' k hk
+          rcases List.mem_cons.1 hs' with rfl | hs''
+          · right
+            exact List.mem_append_left _ (List.mem_reverse.2 hk)
+          · rcases ha s hs'' k hk with h' | h'
+            · exact Or.inl (List.mem_cons_of_mem _ h')
+            · rcases List.mem_cons.1 h' with rfl | h''
+              · exact Or.inl (by simp)
+              · exact Or.inr (List.mem_append_right _ h'')
+        · intro x hx
+          rcases hx with hx | hx
+          · rcases List.mem_cons.1 hx with rfl | hx'
+            · exact hrp
+            · exact hb x (Or.inl hx')
+          · rcases List.mem_append.1 hx with hx' | hx'
+            · exact Reach.step hrp (List.mem_reverse.1 hx')
+            · exact hb x (Or.inr (List.mem_cons_of_mem _ hx'))
+        · rcases hc with hc | hc
+          · exact Or.inl (List.mem_cons_of_mem _ hc)
+          · rcases List.mem_cons.1 hc with rfl | h''
+            · exact Or.inl (by simp)
+            · exact Or.inr (List.mem_append_right _ h'')
+        · rw [hd]
+          simp [kids]
+        · exact List.nodup_cons.2 ⟨hs, he⟩
+
+/-! ### Fuel bound -/
+
+/-- how many PIDs of the universe `U` are not yet in `seen` -/
+def unseenCnt (U seen : List Nat) : Nat := (U.filter fun u => !seen.contains u).length
+
+theorem unseenCnt_mono (U seen : List Nat) (pid : Nat) :
+    unseenCnt U (pid :: seen) ≤ unseenCnt U seen := by
+  unfold unseenCnt
+  induction U with
+  | nil => simp
+  | cons u us ih =>
+    simp only [List.filter_cons]
+    by_cases h1 : (pid :: seen).contains u = true
+    · by_cases h2 : seen.contains u = true
+      · simp only [h1, h2, Bool.not_true, Bool.false_eq_true, if_false]; exact ih
+      · simp only [h1, h2, Bool.not_true, Bool.not_false, Bool.false_eq_true, if_false, if_true,
+          List.length_cons]; omega
+    · have h2 : seen.contains u = false := by
+        have : u ∉ pid :: seen := by simpa using h1
+        have : u ∉ seen := fun m => this (List.mem_cons_of_mem _ m)
+        simpa using this
+      have h1' : (pid :: seen).contains u = false := by simpa using h1
+      simp only [h1', h2, Bool.not_false, if_true, List.length_cons]; omega
+
+theorem unseenCnt_lt {U seen : List Nat} {pid : Nat} (hU : pid ∈ U) (hs : pid ∉ seen) :
+    unseenCnt U (pid :: seen) + 1 ≤ unseenCnt U seen := by
+  induction U with
+  | nil => cases hU
+  | cons u us ih =>
+    by_cases hup : u = pid
+    · subst hup
+      have h1 : (u :: seen).contains u = true := by simp
+      have h2 : seen.contains u = false := by simpa using hs
+      have := unseenCnt_mono us seen u
+      unfold unseenCnt at this ⊢
+      simp only [List.filter_cons, h1, h2, Bool.not_true, Bool.not_false, Bool.false_eq_true,
+        if_false, if_true, List.length_cons]
+      omega
+    · have hU' : pid ∈ us := by
+        rcases List.mem_cons.1 hU with h | h
+        · exact absurd h.symm hup
+        · exact h
+      have := ih hU'
+      have hiff : (pid :: seen).contains u = seen.contains u := by
+        simp [hup]
+      unfold unseenCnt at this ⊢
+      simp only [List.filter_cons, hiff]
+      split
+      · simp only [List.length_cons]; omega
+      · omega
+
+/-- the universe of the walk: the root and every listed PID -/
+def univ (root : Nat) : List Nat := root :: pm.map (·.1)
+
+theorem kids_sub_univ (root p : Nat) : ∀ c ∈ kids ok pm p, c ∈ univ pm root := by
+  intro c hc
+  have h1 : c ∈ kidsOf pm p := (List.mem_filter.1 hc).1
+  have h2 := mem_kidsOf.1 h1
+  exact List.mem_cons_of_mem _ (List.mem_map.2 ⟨(c, p), h2, rfl⟩)
+
+theorem kids_length_le (p : Nat) : (kids ok pm p).length ≤ pm.length :=
+  Nat.le_trans (List.length_filter_le _ _) (kidsOf_length_le pm p)
+
+theorem walk_isSome (root : Nat) : ∀ (fuel : Nat) (seen stack ret : List Nat),
+    (∀ x ∈ stack, x ∈ univ pm root) →
+    stack.length + unseenCnt (univ pm root) seen * (pm.length + 1) < fuel →
+    (walk true ok pm fuel seen stack ret).isSome = true := by
+  intro fuel
+  induction fuel with
+  | zero => intro seen stack ret _ h; omega
+  | succ fuel ih =>
+    intro seen stack ret hst hlt
+    cases stack with
+    | nil => simp [walk]
+    | cons pid rest =>
+      by_cases hs : pid ∈ seen
+      · have hcont : seen.contains pid = true := by simpa using hs
+        simp only [walk, hcont, Bool.and_self, if_true]
+        apply ih
+        · intro x hx; exact hst x (List.mem_cons_of_mem _ hx)
+        · simp only [List.length_cons] at hlt; omega
+      · have hcont : seen.contains pid = false := by simpa using hs
+        simp only [walk, hcont, Bool.and_false, Bool.false_eq_true, if_false]
+        apply ih
+        · intro x hx
+          rcases List.mem_append.1 hx with hx' | hx'
+          · exact kids_sub_univ ok pm root pid x (List.mem_reverse.1 hx')
+          · exact hst x (List.mem_cons_of_mem _ hx')
+        · have hU : pid ∈ univ pm root := hst pid (by simp)
+          have h1 := unseenCnt_lt hU hs
+          have h2 : unseenCnt (univ pm root) (pid :: seen) * (pm.length + 1) + (pm.length + 1)
+              ≤ unseenCnt (univ pm root) seen * (pm.length + 1) := by
+            have := Nat.mul_le_mul_right (pm.length + 1) h1
+            rw [Nat.add_mul, Nat.one_mul] at this
+            exact this
+          have h3 := kids_length_le ok pm pid
+          simp only [List.length_cons] at hlt
+          simp only [List.length_append, List.length_reverse]
+          show ((kidsOf pm pid).filter ok).length + rest.length
+            + unseenCnt (univ pm root) (pid :: seen) * (pm.length + 1) < fuel
+          unfold kids at h3
+          omega
+
+theorem walkFuel_enough (root : Nat) :
+    [root].length + unseenCnt (univ pm root) [] * (pm.length + 1) < walkFuel pm := by
+  have h1 : unseenCnt (univ pm root) [] ≤ pm.length + 1 := by
+    unfold unseenCnt univ
+    refine Nat.le_trans (List.length_filter_le _ _) ?_
+    simp
+  have h2 := Nat.mul_le_mul_right (pm.length + 1) h1
+  unfold walkFuel
+  simp only [List.length_cons, List.length_nil]
+  omega
+
+end Walk
+
+/-! ## Reachability of the walk = descendants of the specification -/
+
+theorem mem_kids_iff {pm : PpidMap} {look : Look} {ct p c : Nat} :
+    c ∈ kids (accepted .le ct look) pm p ↔ Child pm look ct p c := by
+  unfold kids Child
+  rw [List.mem_filter, mem_kidsOf, accepted_le_iff]
+
+theorem reach_kids_iff_desc {pm : PpidMap} {look : Look} {ct root c : Nat} :
+    (∃ p, Reach (accepted .le ct look) pm root p ∧ c ∈ kids (accepted .le ct look) pm p)
+      ↔ Desc pm look ct root c := by
+  constructor
+  · rintro ⟨p, hp, hc⟩
+    induction hp generalizing c with
+    | root => exact Desc.base (mem_kids_iff.1 hc)
+    | step _ hk ih => exact Desc.step (ih hk) (mem_kids_iff.1 hc)
+  · intro h
+    induction h with
+    | base hc => exact ⟨root, Reach.root, mem_kids_iff.2 hc⟩
+    | step _ hc ih =>
+      obtain ⟨p, hp, hd⟩ := ih
+      exact ⟨_, Reach.step hp hd, mem_kids_iff.2 hc⟩
+
+theorem desc_mono {pm pm' : PpidMap} (hsub : ∀ e, e ∈ pm' → e ∈ pm) {look : Look} {ct root c : Nat}
+    (h : Desc pm' look ct root c) : Desc pm look ct root c := by
+  induction h with
+  | base hc => exact Desc.base ⟨hsub _ hc.1, hc.2⟩
+  | step _ hc ih => exact Desc.step ih ⟨hsub _ hc.1, hc.2⟩
+
+/-- dropping the caller's own entry from the map removes exactly the caller from its descendants -/
+theorem desc_filter_self {pm : PpidMap} {look : Look} {ct root c : Nat} :
+    Desc (pm.filter fun e => e.1 != root) look ct root c ↔ Desc pm look ct root c ∧ c ≠ root := by
+  constructor
+  · intro h
+    refine ⟨desc_mono (fun e he => (List.mem_filter.1 he).1) h, ?_⟩
+    have hkey : ∃ p, (c, p) ∈ pm.filter fun e => e.1 != root := by
+      cases h with
+      | base hc => exact ⟨_, hc.1⟩
+      | step _ hc => exact ⟨_, hc.1⟩
+    obtain ⟨p, hp⟩ := hkey
+    have := (List.mem_filter.1 hp).2
+    simpa using this
+  · rintro ⟨h, hne⟩
+    induction h with
+    | base hc =>
+      exact Desc.base ⟨List.mem_filter.2 ⟨hc.1, by simpa using hne⟩, hc.2⟩
+    | @step d c hd hc ih =>
+      have hmem : (c, d) ∈ pm.filter fun e => e.1 != root :=
+        List.mem_filter.2 ⟨hc.1, by simpa using hne⟩
+      by_cases hdr : d = root
+      · subst hdr
+        exact Desc.base ⟨hmem, hc.2⟩
+      · exact Desc.step (ih hdr) ⟨hmem, hc.2⟩
+
+/-! ## The identity pre-check -/
+
+theorem raise_false {look0 : Look} {me : Caller} (hr : me.reused = false) (hn : ¬ Recycled look0 me) :
+    (raiseIfPidReused look0 me).2 = false := by
+  unfold raiseIfPidReused isRunning
+  simp only [hr, Bool.false_eq_true, if_false, Bool.or_false]
+  cases hgone : me.gone with
+  | true => simp [hr]
+  | false =>
+    simp only [Bool.false_eq_true, if_false]
+    cases hl : look0 me.pid with
+    | none => simp
+    | some s =>
+      by_cases hs : s = me.ctime
+      · simp [hs]
+      · exact absurd ⟨s, hl, hs⟩ hn
+
+theorem raise_true {look0 : Look} {me : Caller} (hg : me.gone = false ∨ me.reused = true)
+    (h : Recycled look0 me) : (raiseIfPidReused look0 me).2 = true := by
+  obtain ⟨s, hl, hs⟩ := h
+  unfold raiseIfPidReused isRunning
+  cases hre : me.reused with
+  | true => simp
+  | false =>
+    have hgone : me.gone = false := by
+      rcases hg with h | h
+      · exact h
+      · rw [hre] at h; cases h
+    simp [hgone, hl, hs]
+
+/-! ## children() under a good configuration -/
+
+/-- the map the walkers use under a good configuration -/
+def goodMap (root : Nat) (pm : PpidMap) : PpidMap := pm.filter fun e => e.1 != root
+
+theorem children_flat_good (c : Cfg) (hg : c.Good) (me : Caller) (look0 : Look) (pm : PpidMap)
+    (look : Look) (hraise : (raiseIfPidReused look0 me).2 = false) :
+    (children c me false look0 pm look).2
+      = .ok (kids (accepted .le me.ctime look) (goodMap me.pid pm) me.pid) := by
+  simp [children, hg.childrenGuarded, hraise, usedMap, hg.skipSelf, hg.childOp, childrenFlat, kids,
+    goodMap]
+
+theorem children_rec_good (c : Cfg) (hg : c.Good) (me : Caller) (look0 : Look) (pm : PpidMap)
+    (look : Look) (hraise : (raiseIfPidReused look0 me).2 = false) :
+    ∃ seen' : List Nat,
+      (children c me true look0 pm look).2
+        = .ok (seen'.reverse.flatMap (kids (accepted .le me.ctime look) (goodMap me.pid pm)))
+      ∧ seen'.Nodup
+      ∧ ∀ x, x ∈ seen' ↔ Reach (accepted .le me.ctime look) (goodMap me.pid pm) me.pid x := by
+  have hsome := walk_isSome (accepted .le me.ctime look) (goodMap me.pid pm) me.pid
+    (walkFuel (goodMap me.pid pm)) [] [me.pid] []
+    (by intro x hx; rcases List.mem_singleton.1 hx with rfl; simp [univ])
+    (walkFuel_enough (goodMap me.pid pm) me.pid)
+  cases hw : walk true (accepted .le me.ctime look) (goodMap me.pid pm)
+      (walkFuel (goodMap me.pid pm)) [] [me.pid] [] with
+  | none => rw [hw] at hsome; cases hsome
+  | some r =>
+    obtain ⟨seen', hr, hnd, hmem⟩ := walk_spec (accepted .le me.ctime look) (goodMap me.pid pm) me.pid
+      _ [] [me.pid] [] r hw (by intro s hs; cases hs)
+      (by intro x hx
+          rcases hx with hx | hx
+          · cases hx
+          · rcases List.mem_singleton.1 hx with rfl; exact Reach.root)
+      (Or.inr (by simp)) (by simp) List.nodup_nil
+    refine ⟨seen', ?_, hnd, hmem⟩
+    have hw' := hw
+    unfold goodMap at hw'
+    simp [children, hg.childrenGuarded, hraise, usedMap, hg.skipSelf, hg.descOp, hg.seenGuard, hw', hr,
+      goodMap]
+
+theorem child_goodMap_iff {pm : PpidMap} {look : Look} {ct root p c : Nat} :
+    Child (goodMap root pm) look ct p c ↔ Child pm look ct p c ∧ c ≠ root := by
+  unfold Child goodMap
+  rw [List.mem_filter]
+  constructor
+  · rintro ⟨⟨h1, h2⟩, h3⟩
+    exact ⟨⟨h1, h3⟩, by simpa using h2⟩
+  · rintro ⟨⟨h1, h3⟩, h2⟩
+    exact ⟨⟨h1, by simpa using h2⟩, h3⟩
+
+theorem kids_nodup {pm : PpidMap} (hu : UniquePids pm) (ok : Nat → Bool) (p : Nat) :
+    (kids ok pm p).Nodup :=
+  List.Nodup.sublist List.filter_sublist (kidsOf_nodup hu p)
+
+theorem kids_disjoint {pm : PpidMap} (hu : UniquePids pm) (ok : Nat → Bool) {x y c : Nat}
+    (hne : x ≠ y) (hx : c ∈ kids ok pm x) : c ∉ kids ok pm y := by
+  intro hy
+  have h1 := mem_kidsOf.1 (List.mem_filter.1 hx).1
+  have h2 := mem_kidsOf.1 (List.mem_filter.1 hy).1
+  exact hne (unique_parent hu h1 h2)
+
+/-- the result list of the recursive branch, as a set -/
+theorem flatMap_kids_isSetOf {pm : PpidMap} (hu : UniquePids pm) {look : Look} {ct root : Nat}
+    {seen' : List Nat} (hnd : seen'.Nodup)
+    (hmem : ∀ x, x ∈ seen' ↔ Reach (accepted .le ct look) (goodMap root pm) root x) :
+    IsSetOf (seen'.reverse.flatMap (kids (accepted .le ct look) (goodMap root pm)))
+      (fun c => Desc pm look ct root c ∧ c ≠ root) := by
+  have hu' : UniquePids (goodMap root pm) := uniquePids_filter hu _
+  constructor
+  · apply nodup_flatMap_of (nodup_reverse' hnd)
+    · intro x _; exact kids_nodup hu' _ x
+    · intro x _ y _ hne c hc; exact kids_disjoint hu' _ hne hc
+  · intro c
+    rw [List.mem_flatMap]
+    constructor
+    · rintro ⟨p, hp, hc⟩
+      have hr := (hmem p).1 (List.mem_reverse.1 hp)
+      have := reach_kids_iff_desc.1 ⟨p, hr, hc⟩
+      unfold goodMap at this
+      exact desc_filter_self.1 this
+    · intro h
+      have := desc_filter_self.2 h
+      obtain ⟨p, hp, hc⟩ := reach_kids_iff_desc.2 this
+      exact ⟨p, List.mem_reverse.2 ((hmem p).2 hp), hc⟩
 
 end Psutil.C05
